@@ -79,7 +79,7 @@ ASSUMPTIONS = [
 ]
 FAULT_KINDS = ["delete-csv", "delete-tex", "delete-pdf", "delete-png", "data-changed", "template-changed",
                "converter-finishes-after-k-polls", "converter-finishes-at-communicate",
-               "run-abandoned-by-consumer"]
+               "run-abandoned-by-consumer", "template-line-terminator-only-change"]
 EXPECTED_PROBES = ["csv-deleted-and-data-changed", "tex-deleted-and-template-changed", "pdf-deleted-only",
                    "png-deleted-only", "unchanged-run-no-work", "converter-finished-between-polls",
                    "completion-order-differs-from-launch-order", "existing_unchanged", "write-overwrite",
@@ -105,24 +105,24 @@ OUTDIR = "out"
 TEMPLATE_PATH = "templates/plot.tex"
 KINDS = ["csv", "tex", "pdf", "png"]
 MKF = ["plain", "dir", "dirfmt", "prefix", "suffix", "presuf", "ctxprefix", "second-noow", "second-ow",
-       "ctxname", "ctxdir-empty", "ctxext-empty", "mkf-ext", "suffix-scaled", "prefix-scaled", "dir-optional"]
+       "ctxname", "ctxdir-empty", "ctxext-empty", "mkf-ext", "suffix-scaled", "prefix-scaled", "dir-optional", "prefix-alt"]
 
 
-def template_text(version):
-    # no trailing newline: jinja2 drops a single trailing newline by default
+def template_text(version, newline=False):
+    # jinja2 drops a single trailing newline by default: two in the template give one in the text
     return ("%% template v%d\n"
             "\\begin{plot}\n"
             "\\input{\\VAR{ output.filepath }}\n"
             "%% \\VAR{ plot.name }\n"
-            "\\end{plot}") % version
+            "\\end{plot}") % version + ("\n\n" if newline else "")
 
 
-def expected_tex(version, csvpath, name):
+def expected_tex(version, csvpath, name, newline=False):
     return ("%% template v%d\n"
             "\\begin{plot}\n"
             "\\input{%s}\n"
             "%% %s\n"
-            "\\end{plot}") % (version, csvpath, name)
+            "\\end{plot}") % (version, csvpath, name) + ("\n" if newline else "")
 
 
 def make_filenames(variant):
@@ -147,6 +147,10 @@ def make_filenames(variant):
         return [MF("{{plot.name}}"), MF("other_{{plot.name}}", dirname="zzz")]
     if variant == "second-ow":
         return [MF(prefix="pre_"), MF("{{plot.name}}"), MF("ow_{{plot.name}}", overwrite=True)]
+    if variant == "prefix-alt":
+        # a chain of alternative names: the first cannot be formatted, the pending prefix must
+        # still be there for the second
+        return [MF(prefix="pre_"), MF("combined_{{nokey.x}}"), MF("{{plot.name}}")]
     if variant == "dir-optional":
         # a key that cannot be formatted for a value is not set for that value
         return [MF(dirname="d_{{extra.dir}}"), MF("{{plot.name}}")]
@@ -180,6 +184,8 @@ def expected_name(variant, name):
         return "zzz", name
     if variant == "second-ow":
         return "", "ow_" + name
+    if variant == "prefix-alt":
+        return "", "pre_" + name
     if variant == "dir-optional":
         # only even plots carry extra.dir
         return ("d_a" if int(name[1:]) % 2 == 0 else ""), name
@@ -258,6 +264,8 @@ def gen_scenario(tape):
         run = Spec()
         run.jump = 1 + tape.draw(50, "clock-jump")
         run.template_change = r > 0 and tape.chance(1, 3, "template-change")
+        # a change of the template that only adds or removes the final line terminator
+        run.template_newline = r > 0 and tape.chance(1, 8, "template-trailing-newline-toggled")
         run.data_change = []
         run.delete = []
         for p in range(sc.nplots):
@@ -293,6 +301,7 @@ class World(object):
         latex_mod.os = self.simos
         png_mod.os = self.simos
         self.template_version = 0
+        self.template_newline = False
         self.data_version = [0] * sc.nplots
         self.fs.poke(TEMPLATE_PATH, template_text(0))
         self.prev = None           # disk image at the end of the previous run
@@ -417,6 +426,7 @@ def run(tape):
         run_ = Spec()
         run_.jump = 5
         run_.template_change = False
+        run_.template_newline = False
         run_.data_change = [False] * sc.nplots
         run_.delete = [0] * sc.nplots
         run_.plan = [None] * sc.nplots
@@ -435,7 +445,7 @@ def run(tape):
             w.fs.clock.tick(spec.jump)
         deleted = [set() for _ in range(sc.nplots)]
         changed_data = list(spec.data_change)
-        tchange = spec.template_change
+        tchange = spec.template_change or getattr(spec, "template_newline", False)
         # existing_unchanged is the user's promise that existing files are current
         for p in range(sc.nplots):
             mask = spec.delete[p]
@@ -447,8 +457,12 @@ def run(tape):
             if sc.w2 == "existing_unchanged" and (tchange or "csv" in deleted[p] and False):
                 deleted[p].add("tex")
         if tchange:
-            w.template_version += 1
-            w.fs.poke(TEMPLATE_PATH, template_text(w.template_version))
+            if spec.template_change:
+                w.template_version += 1
+            if getattr(spec, "template_newline", False):
+                w.template_newline = not w.template_newline
+                res.fault("template-line-terminator-only-change")
+            w.fs.poke(TEMPLATE_PATH, template_text(w.template_version, w.template_newline))
             res.fault("template-changed")
         for p in range(sc.nplots):
             if changed_data[p]:
@@ -661,7 +675,7 @@ def check_run(w, sc, res, r, spec, rec, out, sub, start_image, oplog_start, dele
                 fresh = content == handed
             elif kind == "tex":
                 handed = tap_of(rec, "render", name)[0][0]
-                exp = expected_tex(w.template_version, tap_of(rec, "w1", name)[0][0], name)
+                exp = expected_tex(w.template_version, tap_of(rec, "w1", name)[0][0], name, w.template_newline)
                 if handed != exp:
                     viol("C19:RenderLaTeX:stale-or-wrong-text",
                          "RenderLaTeX yielded %r; the current template renders to %r" % (handed, exp))
